@@ -467,6 +467,8 @@ def rule_M6(ctx, rid='M6'):
                         newv, _ = se.ev(s.value)
                         se.col = kept.hull(newv)
                         n_store += 1
+                    elif isinstance(tgt.value, ast.Name) and tgt.value.id in out_names:
+                        continue      # reported above under periodic-columns-only
                     else:
                         raise AnalysisError('M6: store `%s` outside the vocabulary'
                                             % unparse(tgt))
